@@ -1,6 +1,8 @@
 F = "dec/dec.py"
 SORT = "        ls = sorted(ls, key=lambda x: x[0], reverse=not ascending)"
 MUTANTS = [
+    ("rows-token-text", F, "        fsp_names = get_final_state_particle_names(decay_mode)\n", "        fsp_names = [str(c.children[0]) for c in decay_mode.children if c.data == 'particle']\n", "C16.9"),
+    ("rows-first-two", F, "        fsp_names = get_final_state_particle_names(decay_mode)\n", "        fsp_names = get_final_state_particle_names(decay_mode)[:2]\n", "C16.9"),
     ("ascending-ignored", F, SORT, "        ls = sorted(ls, key=lambda x: -x[0])", "C16.1"),
     ("index-wrong", F, "            i = -1 if ascending else 0", "            i = 0 if ascending else -1", "C16.2"),
     ("index-always-0", F, "            i = -1 if ascending else 0", "            i = 0", "C16.2"),
@@ -21,6 +23,7 @@ MUTANTS = [
     ("print-model-inverted", F, "            if print_model:\n                line = \"  {:<10.7g}", "            if not print_model:\n                line = \"  {:<10.7g}", "C16.6"),
 ]
 BENIGN = [
+    ("rows-inlined-accessor", F, "        fsp_names = get_final_state_particle_names(decay_mode)\n", "        fsp_names = [str(p.children[0].value) for p in get_final_state_particles(decay_mode)]\n"),
     ("sort-method", F, SORT, "        ls.sort(key=lambda x: x[0], reverse=not ascending)"),
     ("neg-key-form", F, SORT, "        ls = sorted(ls, key=lambda x: x[0] if ascending else -x[0])"),
     ("max-reference", F, "            i = -1 if ascending else 0\n            norm = ls[i][0] / scale", "            norm = max(bf for bf, _, _, _ in ls) / scale"),
